@@ -46,7 +46,8 @@ PROP = dict(
           "cells where what is carried inside would give the other verdict, or nothing is carried, or E / the outer type is one of the special types "
           "above (std::nested_exception included), or the ambient state is not plain. "
           "Distinct = distinct case encodings (hash)."),
-    assumptions=["the wording of the message a comparison macro makes up itself (expect_eq(a, b): \"a != b\" in /repo) is not judged - only that msg is non-empty, that what() shows it and that a retained failure keeps saying what it said when it was caught; the message given to expect_msg is compared exactly",
+    assumptions=["toolchain limit: every harness is built with clang 14 / libstdc++ 12; a tree that needs std::source_location does not build with it (INFRA-ERROR, never a VIOLATION)",
+                 "the wording of the message a comparison macro makes up itself (expect_eq(a, b): \"a != b\" in /repo) is not judged - only that msg is non-empty, that what() shows it and that a retained failure keeps saying what it said when it was caught; the message given to expect_msg is compared exactly",
                  "expectation_failed::msg is copied inside the catch handler (while the exception object is alive) and only for the comparison macros, "
                  "whose message the statement promises; in the wrong-type arm of expect_raises it points (in /repo) into a destroyed std::string and only "
                  "what() is inspected",
